@@ -167,6 +167,8 @@ pub fn lib_spec(r: &mut Rng, variety: bool, idx: usize) -> ElfSpec {
         sections_at_end: false,
         rodata_before_text: false,
         data_gap_pages: 0,
+        link_base: 0,
+        text_sec_skip: 0,
     };
     if variety {
         match r.below(8) {
@@ -184,7 +186,10 @@ pub fn lib_spec(r: &mut Rng, variety: bool, idx: usize) -> ElfSpec {
                 // no note at all: the id is the fold of the first executable section, which is not
                 // the first allocated PROGBITS section
                 s.build_id = None;
-                s.rodata_before_text = true;
+                s.rodata_before_text = r.coin();
+                // the first executable section starts in the middle of a page and runs into the next
+                s.text_pages = s.text_pages.max(2);
+                s.text_sec_skip = r.pick_copy(&[0u64, 0x340, 0x7f8, 0xf00, 0xff0]);
             }
             _ => {}
         }
@@ -229,6 +234,8 @@ pub fn build_world(r: &mut Rng, cfg: &WorldCfg) -> Built {
         sections_at_end: false,
         rodata_before_text: false,
         data_gap_pages: 0,
+        link_base: 0,
+        text_sec_skip: 0,
     };
     let exe = elfgen::build(&exe_spec);
     if cfg.link_map {
@@ -442,6 +449,8 @@ pub fn build_world(r: &mut Rng, cfg: &WorldCfg) -> Built {
             sections_at_end: false,
         rodata_before_text: false,
         data_gap_pages: 0,
+        link_base: 0,
+        text_sec_skip: 0,
         };
         let img = elfgen::build(&spec);
         regions.push(RegionSpec {
